@@ -45,6 +45,65 @@ def deltaF (ref trial δp δn a b : Rat) : Rat :=
 /-- the argument of the first log: float64 `reference_size / trial_size` -/
 def logArg (ref trial : Rat) : Rat := rnd64 (ref / trial)
 
+/-! ### the object: `get_reference` / `get_trial` / `delta` as a HISTORY on one `ForgivingFactorBits`
+
+`delta()` does not take the two sizes as arguments: it reads the ATTRIBUTES `self.reference_size`
+(written once by `get_reference`, which caches it: `if not hasattr(self, "reference_size")`) and
+`self.trial_size` (overwritten by every `get_trial`).  The reference the search chases is the value
+`get_reference` RETURNS (`AutoQKHyperModel.reference_size`, the scheduler's block cost), i.e.
+`compute_model_size(model)[0] * self.stress`.  The state below is generic in the number type: the
+theorems use ℝ with exact multiplication, the driver float64-rounded rationals. -/
+
+/-- the attributes of a `ForgivingFactorBits` object that the three methods touch -/
+structure FFB (α : Type) where
+  /-- `self.stress` (public attribute, constructor option `stress=1.0`) -/
+  stress : α
+  /-- `self.reference_size`; `none` = `not hasattr(self, "reference_size")` -/
+  referenceSize : Option α := none
+  /-- `self.trial_size`; `none` = attribute not set yet -/
+  trialSize : Option α := none
+  deriving Repr, Inhabited
+
+/-- `get_reference(model)`; `size` = `compute_model_size(model)[0]`:
+    first call: `self.reference_size = size * self.stress`; every call: `return self.reference_size`. -/
+def getReference {α : Type} (mul : α → α → α) (o : FFB α) (size : α) : α × FFB α :=
+  match o.referenceSize with
+  | some r => (r, o)
+  | none => (mul size o.stress, { o with referenceSize := some (mul size o.stress) })
+
+/-- `get_trial(model)`: `self.trial_size = size; return self.trial_size` -/
+def getTrial {α : Type} (o : FFB α) (size : α) : α × FFB α :=
+  (size, { o with trialSize := some size })
+
+/-- `delta()` on the object: reads the two attributes (`none` = AttributeError); `dl ref trial` is the
+    formula of `ForgivingFactor.delta` for the given attribute values -/
+def deltaObj {α : Type} (dl : α → α → α) (o : FFB α) : Option α :=
+  match o.referenceSize, o.trialSize with
+  | some r, some t => some (dl r t)
+  | _, _ => none
+
+/-- one public operation on the object -/
+inductive FEv (α : Type)
+  | ref (size : α)          -- `get_reference(model)`
+  | trial (size : α)        -- `get_trial(model)`
+  | setStress (s : α)       -- `obj.stress = s`
+  | delta (a b : α)         -- `delta()`; `a b` = numpy's two log values (oracle inputs, driver only)
+  deriving Repr, Inhabited
+
+/-- float64 instance, one step: returned value (`none` = AttributeError / nothing returned) and new state -/
+def stepF (δp δn : Rat) (o : FFB Rat) : FEv Rat → Option Rat × FFB Rat
+  | .ref size => let r := getReference (fun x y => rnd64 (x * y)) o size; (some r.1, r.2)
+  | .trial size => let r := getTrial o size; (some r.1, r.2)
+  | .setStress s => (none, { o with stress := s })
+  | .delta a b => (deltaObj (fun r t => deltaF r t δp δn a b) o, o)
+
+/-- a whole history: per event (returned value, `reference_size` attribute, `trial_size` attribute) -/
+def runF (δp δn : Rat) : FFB Rat → List (FEv Rat) → List (Option Rat × Option Rat × Option Rat)
+  | _, [] => []
+  | o, e :: t =>
+    let r := stepF δp δn o e
+    (r.1, r.2.referenceSize, r.2.trialSize) :: runF δp δn r.2 t
+
 /-! ### size model -/
 
 /-- what the size model reads of one Keras layer -/
